@@ -585,7 +585,21 @@ func (r *trRun) oneOnOne() {
 			for _, t := range all {
 				distinct[t] = true
 			}
-			if len(distinct) != 3 {
+			// every peer has subscribed to the channels of both its pairs (its Connect calls got that far), yet the names
+			// are not three: some pair does not derive the same name at both ends. Otherwise the calls were merely slow.
+			perNode := map[*sNode]map[string]bool{}
+			net.mu.Lock()
+			for t, subs := range net.subs {
+				for _, sb := range subs {
+					if perNode[sb.node] == nil {
+						perNode[sb.node] = map[string]bool{}
+					}
+					perNode[sb.node][t] = true
+				}
+			}
+			net.mu.Unlock()
+			allSubscribed := len(perNode[a]) >= 2 && len(perNode[b]) >= 2 && len(perNode[c]) >= 2
+			if allSubscribed && len(distinct) != 3 {
 				r.violate(k, "channel-name", fmt.Sprintf("three peers connected pairwise subscribe to %d distinct channel names instead of 3: some pair does not derive the same name at both ends", len(distinct)), 3, all)
 			} else {
 				r.res.Inconclusive = append(r.res.Inconclusive, "oneonone connect (three peers): no return within 20 s")
